@@ -55,7 +55,7 @@ Proof.
   - apply release_closes_false in Er as (E1 & E2 & E3).
     assert (E3' : proto_should_close s (s_conn s c) = false).
     { unfold mark_incomplete in E3. now destruct (prog_done _). }
-    unfold proto_should_close in E3'. apply should_close_false in E3' as (X1 & X2 & X3 & X4 & X5 & X6).
+    unfold proto_should_close in E3'. apply should_close_false in E3' as (X1 & X2 & X3 & X4 & X5 & X6 & X7).
     repeat split; try assumption.
     + destruct (c_exc (s_conn s c) =? 0) eqn:Ee; [now apply N.eqb_eq in Ee|discriminate].
     + now apply nonempty_false.
@@ -70,4 +70,35 @@ Theorem quiet_pool_clean cf tr s c :
 Proof.
   intros Hr F Hin. destruct (good_run cf tr init s struct_init tags_init Hr F) as [S T].
   apply (ct_idle s c (tg_conn s (tg_core s T) c)). now apply (st_pool s S).
+Qed.
+
+(* C06_reuse_only_clean: at the moment a pooled connection is handed out again the protocol reports nothing that
+   could belong to an earlier exchange: no close announced, last payload complete, not upgraded, no exception,
+   response queue empty, raw tail empty, and no incomplete line in the parser's buffer. *)
+Theorem reuse_only_clean cf tr s e r s' :
+  run cf init tr = Some s -> step cf s (EConnect e r) = Some s' ->
+  x_conn (s_x s' e) < s_nconn s ->
+  let cn := s_conn s (x_conn (s_x s' e)) in
+  c_sc cn = false /\ pay_open s cn = false /\ c_upg cn = false /\ c_exc cn = 0 /\
+  c_buf cn = [] /\ c_htail cn = [] /\ (c_parser cn && c_ptail cn) = false.
+Proof.
+  intros Hr H Hlt. pose proof (struct_reach _ _ _ Hr) as S.
+  cbn [step] in H. destruct (no_seg s); [|discriminate].
+  unfold do_connect in H. destruct (x_st (s_x s e)); try discriminate.
+  destruct (pool_get cf s (key_of_req r) (s_pool s) []) as [s1 got] eqn:Eg.
+  destruct S as [A B C D E].
+  destruct (struct_pool_get cf (key_of_req r) (s_pool s) s [] s1 got A B C D E Eg) as (_ & _ & Hn & _).
+  destruct got as [c|]; inv_some.
+  - cbn in Hlt |- *. rewrite upd_same in Hlt |- *. cbn in Hlt |- *.
+    destruct (pool_get_reused cf _ _ _ _ _ _ Eg) as (H1 & H2 & H3 & H4).
+    unfold reusable in H2. apply andb_true_iff in H2 as [H2 _].
+    pose proof (get_reuses_connected _ _ _ _ H2) as Hc. apply get_reuses_clean in H2.
+    destruct (H3 c) as [E'|E']; [|congruence]. rewrite E' in H2.
+    unfold proto_should_close in H2. apply should_close_false in H2 as (X1 & X2 & X3 & X4 & X5 & X6 & X7).
+    unfold pay_open in X2 |- *. rewrite H4 in X2.
+    repeat split; try assumption.
+    + destruct (c_exc (s_conn s c) =? 0) eqn:Ee; [now apply N.eqb_eq in Ee|discriminate].
+    + now apply nonempty_false.
+    + now apply nonempty_false.
+  - cbn in Hlt. rewrite upd_same in Hlt. cbn in Hlt. rewrite Hn in Hlt. lia.
 Qed.
